@@ -874,6 +874,25 @@ func genRefusals(out func(tcase)) {
 		for _, s := range []string{"-5", "-0", mn + "--" + mx, "*/-1", "*/-0", mn + "/-2"} {
 			add(s, "non-numeric")
 		}
+		// the step is a number and nothing else: names of either table (every casing), numerals in
+		// other notations and units are non-numeric values in the step position of every term shape
+		// (seeded change C04-r8m1: the step parsed with the helper that also accepts names)
+		var stepWords []string
+		for _, tab := range [][]string{fieldsTab[4].names, fieldsTab[5].names} {
+			for _, n := range tab {
+				stepWords = append(stepWords, casings(n)...)
+			}
+		}
+		stepWords = append(stepWords, "x", "2x", "x2", "1.5", "2.0", "1e1", "0x2", "0b10", "0o2", "2_0", "\uff12", "\u0662", "2s", "2m", "*", "?", "2-3", "2,3"[:1]+"\u00a02", "two")
+		for _, w := range stepWords {
+			for _, head := range []string{"*", "?", mn, mn + "-" + mx} {
+				add(head+"/"+w, "non-numeric")
+			}
+			if b.names != nil {
+				add(b.names[0]+"/"+w, "non-numeric")
+				add(b.names[0]+"-"+b.names[len(b.names)-1]+"/"+w, "non-numeric")
+			}
+		}
 		add(mx+"-"+mn, "inverted-range")
 		add(mx+"-"+mn+"/2", "inverted-range")
 		for _, s := range []string{"*/0", "?/0", mn + "/0", mn + "-" + mx + "/0", "*/00", "*/+0"} {
